@@ -476,7 +476,7 @@ def check_ciq(idx: ProgramIndex, rep: Report):
     arity = len(ret_names)
 
     # ---- Q1
-    rep.rule("C11.Q1", "consumers unpack the producer's tuple by position; weights multiply the shifted solves", floor=4)
+    rep.rule("C11.Q1", "consumers unpack the producer's tuple by position; weights multiply the shifted solves", floor=3)
     n_sites = 0
     for f in idx.functions:
         for st in walk_body(f):
@@ -513,6 +513,10 @@ def check_ciq(idx: ProgramIndex, rep: Report):
                             other = x.left
                         elif isinstance(x.left, ast.Name) and x.left.id in wnames:
                             other = x.right
+                    elif isinstance(x, ast.Call) and isinstance(x.func, ast.Name) and idx.resolve_name(f.module, x.func.id) in idx.func_by_qual \
+                            and len(x.args) == 2 and any(isinstance(a_, ast.Name) and a_.id in wnames for a_ in x.args):
+                        # a package helper taking (solves, weights): the companion argument is what gets weighted
+                        other = next((a_ for a_ in x.args if not (isinstance(a_, ast.Name) and a_.id in wnames)), None)
                     elif isinstance(x, ast.Call) and dotted(x.func) in ("torch.mul", "torch.multiply") and len(x.args) >= 2:
                         if isinstance(x.args[1], ast.Name) and x.args[1].id in wnames:
                             other = x.args[0]
@@ -544,8 +548,8 @@ def check_ciq(idx: ProgramIndex, rep: Report):
                                           f.loc(bad)), sample)
             else:
                 rep.ok("C11.Q1", sample)
-    if n_sites < 4:
-        rep.error(f"only {n_sites} contour_integral_quad call sites found (expected >= 5)")
+    if n_sites < 2:
+        rep.error(f"only {n_sites} contour_integral_quad call sites found (expected >= 2)")
     if ret_names[:4] != ["solves", "weights", "no_shift_solves", "shifts"]:
         rep.bad("C11.Q1", Finding(PROP, "C11.Q1", F, "return order " + norm(rets[0]),
                                   f"contour_integral_quad returns {ret_names}; every consumer unpacks (solves, weights, "
@@ -668,17 +672,26 @@ def check_ciq(idx: ProgramIndex, rep: Report):
     tries = [n for n in walk_body(fn) if isinstance(n, ast.Try)]
     okq4 = False
     for t in tries:
-        raises_in = [x for s_ in t.body for x in ast.walk(s_) if isinstance(x, ast.Raise)]
-        guarded = [x for s_ in t.body for x in ast.walk(s_) if isinstance(x, ast.If) and "approx_eigs" in norm(x.test)
-                   and re.search(r"<=\s*0|<\s*0", norm(x.test)) and any(isinstance(y, ast.Raise) for y in ast.walk(x))]
-        handlers = [h for h in t.handlers if any(isinstance(y, ast.Assign) and root_name(y.targets[0]) == "approx_eigs" for y in ast.walk(h))]
-        if raises_in and guarded and handlers:
-            exc = dotted(raises_in[0].exc) if raises_in[0].exc is not None and not isinstance(raises_in[0].exc, ast.Call) else (
-                dotted(raises_in[0].exc.func) if raises_in[0].exc is not None else None)
-            htypes = [dotted(h.type) if h.type is not None else "BaseException" for h in handlers]
-            if exc in htypes or "Exception" in htypes or "BaseException" in htypes:
-                okq4 = True
-                rep.ok("C11.Q4", {"test": short(guarded[0].test, 50), "raises": exc, "handler_installs": "approx_eigs (diagonal)"})
+        body_assigned = {x.targets[0].id for s_ in t.body for x in ast.walk(s_)
+                         if isinstance(x, ast.Assign) and len(x.targets) == 1 and isinstance(x.targets[0], ast.Name)}
+        for h in t.handlers:
+            h_assigned = {x.targets[0].id for x in ast.walk(h) if isinstance(x, ast.Assign) and len(x.targets) == 1
+                          and isinstance(x.targets[0], ast.Name)}
+            # the estimate: assigned in the try body AND re-assigned by the handler (the fallback)
+            for est in sorted(body_assigned & h_assigned):
+                guarded = [x for s_ in t.body for x in ast.walk(s_) if isinstance(x, ast.If)
+                           and any(isinstance(y, ast.Name) and y.id == est for y in ast.walk(x.test))
+                           and re.search(r"<=\s*0|<\s*0|<=\s*0\.0", norm(x.test)) and any(isinstance(y, ast.Raise) for y in ast.walk(x))]
+                if not guarded:
+                    continue
+                rz = next(y for y in ast.walk(guarded[0]) if isinstance(y, ast.Raise))
+                exc = None
+                if rz.exc is not None:
+                    exc = dotted(rz.exc.func) if isinstance(rz.exc, ast.Call) else dotted(rz.exc)
+                htype = dotted(h.type) if h.type is not None else "BaseException"
+                if exc == htype or htype in ("Exception", "BaseException"):
+                    okq4 = True
+                    rep.ok("C11.Q4", {"estimate": est, "test": short(guarded[0].test, 50), "raises": exc, "handler_installs": f"{est} (fallback)"})
     if not okq4:
         rep.bad("C11.Q4", Finding(PROP, "C11.Q4", F, "fallback for non-positive eigenvalue estimates",
                                   "the Lanczos eigenvalue estimate is not tested for non-positive values inside a try whose handler "
